@@ -974,6 +974,15 @@ func (c *DnsController) processBpfUpdateTask(task *bpfUpdateTask, draining bool)
 	if task == nil || task.cache == nil {
 		return false
 	}
+	// A published entry (RouteOwnerKey = its cache key) may have been replaced or removed since the
+	// task was queued. Re-applying it would overwrite its owner's snapshot in the domain-routing
+	// tracker with addresses that no cached entry lists any more, and nothing would remove them
+	// again: drop the task instead.
+	if key := task.cache.RouteOwnerKey; key != "" {
+		if cur, ok := c.dnsCache.Load(key); !ok || cur != any(task.cache) {
+			return true
+		}
+	}
 	if rt := c.runtime(); rt != nil && rt.cacheAccessCallback != nil {
 		if err := rt.cacheAccessCallback(task.cache); err != nil {
 			if c.log != nil {
